@@ -20,8 +20,8 @@ every call `run r' x` reachable from `run r d` the first argument `r'` is a sub-
   (data) argument of `run e ·`, where `e` is a sub-term of the rule (`mapData`, `filterData`, `reduceData`,
   `quantData` are ordinary recursions over the item list, outside the block; they only call the closure).
 So a second interpretation pass over a value cannot even be written in this model without the termination
-checker rejecting the definition; and the model agrees with the crate on > 10^6 differential cases, among them the
-marker-data stream of this property. What remains to be *stated* are the consequences below: operands are
+checker rejecting the definition (that the model is what the crate does is the business of the differential
+correspondence check, whose C04 stream seeds the data with operation-shaped marker values). What remains to be *stated* are the consequences below: operands are
 evaluated once, in order, and only their values reach the operator (`eager_subst`, `trace_once`, `var_default…`).
 
 `Spec.Ref.eval` (`JL/Spec/Ref.lean`) is the single-pass reference semantics; `ref_equiv` below states the agreement.
@@ -261,6 +261,13 @@ example : varRules 2 = [.obj [("var".toList, .num (.pos 0))], .obj [("var".toLis
 -- hypothesis of `eager_subst_verbatim`
 example : ([.obj [("+".toList, .arr [.num (.pos 1), .num (.pos 2)])], .str "x".toList] : List Json).map (fun a => (apply a .null).out) =
     ([.num (.pos 3), .str "x".toList] : List Json).map Out.ok := by decide +kernel
+
+-- hypotheses of `eager_first_error`: a succeeding operand with a trace, then a failing one; the third is not evaluated
+example : (∃ y, (run (.obj [("log".toList, .str "a".toList)]) .null).out = .ok y) ∧
+    (run (.obj [("+".toList, .arr [.obj []])]) .null).out = .err ∧
+    apply (.obj [("cat".toList, .arr [.obj [("log".toList, .str "a".toList)], .obj [("+".toList, .arr [.obj []])],
+      .obj [("log".toList, .str "c".toList)]])]) .null = ⟨[.str "a".toList], .err⟩ :=
+  ⟨⟨.str "a".toList, by decide +kernel⟩, by decide +kernel, by decide +kernel⟩
 
 -- `trace_once`: two logging operands, then `log`'s own line
 example : apply (.obj [("log".toList, .arr [.obj [("cat".toList, .arr [.obj [("log".toList, .str "a".toList)], .obj [("log".toList, .str "b".toList)]])]])]) .null
